@@ -48,6 +48,11 @@ def run(ctx):
         used = names + (["s"] if sc else []) + (["t"] if op_ else [])
         lazy_sets = [[], [rnd.choice(used)], rnd.sample(used, rnd.randint(1, len(used)))]
         cases.append({"id": f"E-{i}", "kind": "propagate", "values": vals, "scale": sc, "opts": op_, "lazy_sets": lazy_sets})
+    for i in range(30 * scale):
+        d = rnd.choice(["int64", "float64", "int32"])
+        sh = ops.rand_shape(rnd, 2, 0.1)
+        vals = {"acc": ops.tensor(rnd, d, sh, "small"), "step": ops.tensor(rnd, d, sh, "small")}
+        cases.append({"id": f"E2-{i}", "kind": "propagate2", "values": vals, "lazy_sets": [[], ["step"], ["acc"], ["acc", "step"]]})
     for i in range(60 * scale):
         r = rnd.randint(1, 2)
         sh = [rnd.choice([1, 2, 3]) for _ in range(r)]
@@ -85,6 +90,20 @@ def run(ctx):
                         ctx.finding({"func": "eager_propagate", "kind": "lazy-has-value", "lazy": key}, f"wrapped user function with placeholder arguments {key}: output {j} reports a value", {"case": c, "outcome": rr})
                 if not rr["inputs_still_lazy"]:
                     ctx.finding({"func": "eager_propagate", "kind": "placeholder-gained-value", "lazy": key}, f"a placeholder argument of the wrapped function gained a value", {"case": c, "outcome": rr})
+        elif c["kind"] == "propagate2":
+            names = ["library-only output", "directly applied operator", "mixed output", "argument updated in place"]
+            for key, rr in o.items():
+                if key == "oracle":
+                    continue
+                lazy = [] if key == "-" else key.split(",")
+                for j in range(4):
+                    if ops.cmp_arrays(o["oracle"][j], rr["model"][j], 1e-9, 1e-12):
+                        ctx.finding({"func": "eager_propagate", "kind": "value", "lazy": key, "fn": "user_fn2"}, f"wrapped Array-level user function (in-place update, 3 outputs), placeholders {key}: exported {names[j]} differs from the expected composition", {"case": c, "outcome": rr, "oracle": o["oracle"]})
+                    v = rr["values"][j] if j < 3 else rr["acc_after"]
+                    if not lazy and (v is None or ops.cmp_arrays(o["oracle"][j], v, 1e-9, 1e-12)):
+                        ctx.finding({"func": "eager_propagate", "kind": "eager-value", "lazy": key, "fn": "user_fn2"}, f"wrapped Array-level user function with data-holding arguments: {names[j]} reports {str(v)[:80]}", {"case": c, "outcome": rr, "oracle": o["oracle"]})
+                    if j < 3 and "acc" in lazy and v is not None:
+                        ctx.finding({"func": "eager_propagate", "kind": "lazy-has-value", "lazy": key, "fn": "user_fn2"}, f"wrapped Array-level user function with placeholder arguments {key}: {names[j]} reports a value", {"case": c, "outcome": rr})
         else:
             if not o["dtype_kept"] or o["fields"] != ["lo", "hi"]:
                 ctx.finding({"func": "struct", "kind": "layout", "program": c["program"][:40]}, f"user struct dtype through `{c['program']}`: dtype kept {o['dtype_kept']}, fields {o['fields']}", {"case": c, "outcome": o})
